@@ -33,6 +33,7 @@ pub fn strategy(s: &'static dyn Proto) -> BoxedStrategy<Case> {
         .boxed(),
         KsfKind::RealIdentity => Just(KsfSpec::Identity).boxed(),
         KsfKind::RealArgon2 => Just(KsfSpec::Argon2Default).boxed(),
+        KsfKind::Zst => Just(KsfSpec::H(ksf::ZST_FAMILY)).boxed(),
     };
     (gen::bytes_param(), gen::cred_id(), gen::opt_ctx(gen::bytes_small()), def, gen::tape())
         .prop_map(|(pw, cred, ctx, default_spec, tape)| Case {
@@ -60,6 +61,7 @@ fn table(kind: KsfKind, default_spec: &KsfSpec) -> Vec<(String, Option<KsfSpec>)
             ("argon2id-m16-t2-pepper".into(), Some(KsfSpec::Argon2Ex { alg: 2, v10: false, m_kib: 16, t: 2, p: 1, secret: 1 })),
         ],
         KsfKind::RealIdentity => vec![("absent".into(), None), ("explicit-default".into(), Some(KsfSpec::Identity))],
+        KsfKind::Zst => vec![("absent".into(), None), ("explicit-default".into(), Some(KsfSpec::H(ksf::ZST_FAMILY)))],
         KsfKind::RealArgon2 => vec![
             ("absent".into(), None),
             ("explicit-default".into(), Some(KsfSpec::Argon2Default)),
@@ -84,7 +86,8 @@ struct Reg {
 pub fn check(s: &'static dyn Proto, c: &Case, st: &mut Stats, _k: &KnownFindings) -> CaseResult {
     let m = s.meta();
     let suite = Suite::of(&m);
-    let journalled = m.ksf == KsfKind::Dyn;
+    let journalled = matches!(m.ksf, KsfKind::Dyn | KsfKind::Zst);
+    let tagged = m.ksf == KsfKind::Dyn;
     ksf::set_default_spec(c.default_spec.clone());
     let pw = c.pw.bytes();
     let cred = c.cred.bytes();
@@ -122,6 +125,7 @@ pub fn check(s: &'static dyn Proto, c: &Case, st: &mut Stats, _k: &KnownFindings
             let want = oprf_output(&cst_b[..m.nok], &cst_b[m.nok..])?;
             ensure_eq!(j[0].input, want, "KSF input at registration != OPRF output ({name})");
             match k {
+                _ if !tagged => ensure_eq!(&j[0].spec, &eff(k), "KSF evaluated with unexpected parameters ({name})"),
                 Some(spec) => {
                     ensure!(j[0].tag != DEFAULT_TAG, "a KSF instance was passed ({name}) but the default instance was evaluated");
                     ensure_eq!(&j[0].spec, spec, "KSF evaluated on another instance than the one passed ({name})");
@@ -181,6 +185,7 @@ pub fn check(s: &'static dyn Proto, c: &Case, st: &mut Stats, _k: &KnownFindings
                 let want = oprf_output(slice(&m, Ty::ClientLogin, "blind", &cst_b), slice(&m, Ty::ClientLogin, "blinded_element", &cst_b))?;
                 ensure_eq!(j[0].input, want, "KSF input at login != OPRF output");
                 match lk {
+                    _ if !tagged => {}
                     Some(spec) => {
                         ensure!(j[0].tag != DEFAULT_TAG, "a KSF instance was passed at login ({lname}) but the default instance was evaluated");
                         ensure_eq!(&j[0].spec, spec, "KSF evaluated on another instance than the one passed at login");
@@ -207,7 +212,7 @@ pub fn check(s: &'static dyn Proto, c: &Case, st: &mut Stats, _k: &KnownFindings
     }
 
     // ---- fault injection: the n-th evaluation fails
-    if journalled {
+    if tagged {
         for n in 1..=3u32 {
             ksf::journal_reset();
             let spec = KsfSpec::FailAt(n, Box::new(KsfSpec::H(1)));
